@@ -47,12 +47,6 @@ Definition out_again (r2 : ores unit) (w w2 : fsw) : bytes :=
 
 (* -1: the call succeeds; -2: it raises ValueError; otherwise OSError with that errno *)
 Definition inj_of (z : Z) : ores unit := if z =? -1 then OOk tt else if z <? 0 then OExn ValueError else OErr z.
-(* scripted runtime: makedirs and unlink return the injected outcome, isdir the given flag *)
-Definition script_rt (inj : ores unit) (isd : bool) : runtime unit unit :=
-  mk_runtime unit unit (fun _ _ w => (w, inj)) (fun _ _ => isd) (fun _ w => (w, inj))
-    (fun _ _ => OErr errno_ENOENT) (fun _ _ _ w => (w, OErr errno_ENOENT)) (fun _ _ w => (w, OErr errno_EBADF))
-    (fun _ w => (w, OErr errno_EBADF)) (fun _ => OExn ValueError) (fun h _ => h) (fun _ => OExn ValueError).
-
 Definition run (args : list bytes) : bytes :=
   let op := nth_arg args 0 in
   if is_op "ensure_tree" op then
